@@ -11,6 +11,8 @@ package vwal
 //   sync        the record was written and synced, the sync is reported as failed
 //   sync-lost   the sync is reported as failed and nothing was written
 //   close       Close closes the file and reports an error
+//   close-torn  Close reports an error after its final write (the end-of-log trailer) reached the
+//               file only partly: the file ends in a torn chunk
 //
 // The child counts WriteRecord / Close calls over the whole process (all store
 // instances); the parent judges the run with the fault oracle of the strace layer.
@@ -18,6 +20,8 @@ package vwal
 import (
 	"errors"
 	"fmt"
+	"os"
+	"path/filepath"
 	"strconv"
 	"strings"
 	"sync"
@@ -70,7 +74,7 @@ func (a *apiInjector) next(isClose bool) string {
 		n = a.writes
 	}
 	for _, f := range a.faults {
-		if (f.Kind == "close") == isClose && f.hits(n) {
+		if strings.HasPrefix(f.Kind, "close") == isClose && f.hits(n) {
 			if a.fired != nil {
 				a.fired(fmt.Sprintf("%s call=%d", f.Kind, n))
 			}
@@ -83,6 +87,7 @@ func (a *apiInjector) next(isClose bool) string {
 type faultyManager struct {
 	pebblewal.Manager
 	inj *apiInjector
+	dir string
 }
 
 func (m faultyManager) Create(wn pebblewal.NumWAL, jobID int) (pebblewal.Writer, error) {
@@ -90,12 +95,14 @@ func (m faultyManager) Create(wn pebblewal.NumWAL, jobID int) (pebblewal.Writer,
 	if err != nil {
 		return w, err
 	}
-	return &faultyWriter{inner: w, inj: m.inj}, nil
+	return &faultyWriter{inner: w, inj: m.inj, path: filepath.Join(m.dir, wn.String()+".log")}, nil
 }
 
 type faultyWriter struct {
 	inner pebblewal.Writer
 	inj   *apiInjector
+	path  string
+	size  int64 // file size after the last successful WriteRecord
 }
 
 var errInjected = errors.New("injected log-writer fault")
@@ -135,9 +142,20 @@ func (w *faultyWriter) WriteRecord(p []byte, opts pebblewal.SyncOptions, ref peb
 }
 
 func (w *faultyWriter) Close() (int64, error) {
+	before := int64(-1)
+	if st, err := os.Stat(w.path); err == nil {
+		before = st.Size()
+	}
 	off, err := w.inner.Close()
-	if w.inj.next(true) == "close" {
+	switch w.inj.next(true) {
+	case "close":
 		err = errors.Join(err, fmt.Errorf("close: %w", errInjected))
+	case "close-torn":
+		// what Close appended (the end-of-log trailer) reached the file only partly
+		if st, serr := os.Stat(w.path); serr == nil && before >= 0 && st.Size() > before+1 {
+			_ = os.Truncate(w.path, before+(st.Size()-before)/2+1)
+		}
+		err = errors.Join(err, fmt.Errorf("close (final write torn): %w", errInjected))
 	}
 	return off, err
 }
@@ -145,9 +163,9 @@ func (w *faultyWriter) Close() (int64, error) {
 func (w *faultyWriter) Metrics() record.LogWriterMetrics { return w.inner.Metrics() }
 
 // installAPIFaults wraps the manager of a freshly opened store.
-func installAPIFaults(ws walStore, inj *apiInjector) bool {
+func installAPIFaults(ws walStore, inj *apiInjector, walDir string) bool {
 	return walstore.VerifWrapWALManager(ws, func(m pebblewal.Manager) pebblewal.Manager {
-		return faultyManager{Manager: m, inj: inj}
+		return faultyManager{Manager: m, inj: inj, dir: walDir}
 	})
 }
 
